@@ -40,11 +40,16 @@ func checkC01(p *Prog, r *Report) {
 		}
 		return
 	}
-	rAnch.OK(fnName(a.Fn), a.Fn.Pos(), "admission function; own=%s peer=%s key=%s proxy=%s", a.Us.Name(), a.Other.Name(), a.Key.Name(), a.Proxy.Name())
 	r.Saw("func " + fnName(a.Fn))
-
-	checkBinding(p, r, rBind, a)
 	m := buildConnectModel(p, a)
+	if 0 != len(a.Errs) {
+		for _, e := range a.Errs {
+			rAnch.Unproven("admission-function", token.NoPos, "%s", e)
+		}
+		return
+	}
+	rAnch.OK(fnName(a.Fn), a.Fn.Pos(), "admission function (called by ConnectIn and ConnectOut); key=%s in %s, shutdown flag %s, cancel slots %s; proxy=%s", a.Key.Name(), a.KeyLoc, a.NoMoreLoc, strings.Join(a.SlotLocs, " / "), a.Proxy.Name())
+	checkBinding(p, r, rBind, a)
 	if m.Truncated {
 		rTable.Unproven("exploration", a.Fn.Pos(), "path exploration truncated")
 	}
@@ -88,29 +93,25 @@ func checkTeardownWindow(r *Report, ru *Rule, a *connectAnchors, m *connectModel
 	}
 }
 
-// checkBinding: two callers, (&cancelIn,&cancelOut) and (&cancelOut,&cancelIn).
+// checkBinding: the two entry points use the two cancel slots as mirror
+// images: what is "own" for one is "peer" for the other.
 func checkBinding(p *Prog, r *Report, ru *Rule, a *connectAnchors) {
-	usIdx, otherIdx := paramIndex(a.Fn, a.Us), paramIndex(a.Fn, a.Other)
-	seen := map[string]ssa.CallInstruction{}
-	for _, ci := range a.Callers {
-		c := ci.Common()
-		fu, _ := fieldAddrOf(c.Args[usIdx])
-		fo, _ := fieldAddrOf(c.Args[otherIdx])
-		caller := fnName(ci.Parent())
+	seen := map[string]bool{}
+	for _, in := range a.Insts {
+		caller := fnName(in.Entry)
 		r.Saw("func " + caller)
-		if nil == fu || nil == fo || (fu != a.FIn && fu != a.FOut) || (fo != a.FIn && fo != a.FOut) {
-			ru.Bad(caller, posOf(ci), "own/peer arguments are not the addresses of Broker.cancelIn/cancelOut")
-			continue
+		switch {
+		case "" == in.Own || "" == in.Peer:
+			ru.Bad(caller, posOf(in.Call), "own/peer storage of this direction was not identified")
+		case in.Own == in.Peer:
+			ru.Bad(caller, posOf(in.Call), "own and peer are the same storage (%s): a stream would count as its own peer", in.Own)
+		default:
+			seen[in.Own] = true
+			ru.OK(caller, posOf(in.Call), "own=%s peer=%s", in.Own, in.Peer)
 		}
-		if fu == fo {
-			ru.Bad(caller, posOf(ci), "own and peer are the same field (%s): a stream would count as its own peer", fu.Name())
-			continue
-		}
-		seen[fu.Name()] = ci
-		ru.OK(caller, posOf(ci), "own=&%s peer=&%s", fu.Name(), fo.Name())
 	}
-	if 2 != len(a.Callers) || 2 != len(seen) {
-		ru.Bad("callers", a.Fn.Pos(), "%d call sites binding %d distinct own fields; exactly one per direction expected", len(a.Callers), len(seen))
+	if 2 != len(a.Insts) || 2 != len(seen) || a.Insts[0].Own != a.Insts[1].Peer || a.Insts[0].Peer != a.Insts[1].Own {
+		ru.Bad("callers", a.Fn.Pos(), "%d call sites binding %d distinct own slots; exactly one per direction, as mirror images, expected", len(a.Insts), len(seen))
 	}
 	/* The address of the two fields is taken nowhere else. */
 	for _, fn := range p.Funcs() {
@@ -123,11 +124,29 @@ func checkBinding(p *Prog, r *Report, ru *Rule, a *connectAnchors) {
 			if fv != a.FIn && fv != a.FOut {
 				return
 			}
+			var refs []ssa.Instruction
 			for _, ref := range *fa.Referrers() {
+				if ia, isIA := ref.(*ssa.IndexAddr); isIA {
+					refs = append(refs, *ia.Referrers()...) /* an element of the slot array */
+					continue
+				}
+				refs = append(refs, ref)
+			}
+			for _, ref := range refs {
 				switch x := ref.(type) {
 				case *ssa.Store:
 					if x.Addr == ssa.Value(fa) {
 						continue /* Checked by guarded-by. */
+					}
+					if _, isIA := x.Addr.(*ssa.IndexAddr); isIA && x.Val != ssa.Value(fa) {
+						continue
+					}
+					/* Put into a local struct which only travels to the
+					admission function. */
+					if lf, isFA := x.Addr.(*ssa.FieldAddr); isFA {
+						if _, isLocal := lf.X.(*ssa.Alloc); isLocal {
+							continue
+						}
 					}
 				case *ssa.UnOp:
 					continue
